@@ -19,3 +19,6 @@ Proof. reflexivity. Qed.
 
 Lemma fact_remove_state_cannot_abort_early : remove_state_cannot_abort_early = true.
 Proof. reflexivity. Qed.
+
+Lemma fact_idle_writer_drains : idle_writer_drains_until_closed = true.
+Proof. reflexivity. Qed.
